@@ -28,7 +28,7 @@ def cmpF (v e : Float) : Option Cmp :=
   if v < e then some .lt else if v > e then some .gt else if v == e then some .eq else none
 
 /-- The `while size > 1` loop of `slice::binary_search_by` (Rust ≥ 1.82). Returns the final `base`. -/
-def bsLoop (a : Array Float) (e : Float) : Nat → Nat → Nat → Option Nat
+def bsLoop (cmpF : Float → Float → Option Cmp) (a : Array Float) (e : Float) : Nat → Nat → Nat → Option Nat
   | 0, _, base => some base
   | fuel + 1, size, base =>
     if size > 1 then
@@ -39,14 +39,15 @@ def bsLoop (a : Array Float) (e : Float) : Nat → Nat → Nat → Option Nat
       | some v =>
         match cmpF v e with
         | none => none
-        | some c => bsLoop a e fuel (size - half) (if c == .gt then base else mid)
+        | some c => bsLoop cmpF a e fuel (size - half) (if c == .gt then base else mid)
     else some base
 
 /-- `neighbor_search_startpoints`: `(idx_left, idx_right)`. -/
-def startpoints (a : Array Float) (e : Float) : Option (Option Nat × Option Nat) :=
+def startpoints (cmpF : Float → Float → Option Cmp) (a : Array Float) (e : Float) :
+    Option (Option Nat × Option Nat) :=
   if a.size = 0 then some (none, some 0)   -- Err(0): i == 0
   else
-    match bsLoop a e a.size a.size 0 with
+    match bsLoop cmpF a e a.size a.size 0 with
     | none => none
     | some base =>
       match a[base]? with
@@ -82,11 +83,11 @@ def knn (a : Array Float) (e : Float) : Nat → Option Nat → Option Nat → Op
     | none => none
     | some (i, l', r') => (knn a e k l' r').map (i :: ·)
 
-def estimateBias (b : Nat) (e : Float) : Option Float :=
+def estimateBias (cmpF : Float → Float → Option Cmp) (b : Nat) (e : Float) : Option Float :=
   match rawF[b - rawOffset]?, biasF[b - biasOffset]? with
   | some lookup, some bias =>
     if lookup.size < hllK then none else   -- assert!(lookup_array.len() >= K)
-    match startpoints lookup e with
+    match startpoints cmpF lookup e with
     | none => none
     | some (l, r) =>
       match knn lookup e hllK l r with
@@ -97,21 +98,25 @@ def estimateBias (b : Nat) (e : Float) : Option Float :=
         | some vs => some (vs.foldl (· + ·) 0 / Float.ofNat hllK)
   | _, _ => none
 
-/-- `count()`; `none` = panic. -/
-def count (s : Hll.St) : Option Nat :=
+/-- `count()` with the float comparison of the binary search as a parameter (so that index safety
+can be stated for every outcome of the comparisons); `none` = panic. -/
+def countWith (cmpF : Float → Float → Option Cmp) (s : Hll.St) : Option Nat :=
   let m := Float.ofNat s.regs.size
   match s.regs.toList.mapM (fun x => pow2F[x]?) with
   | none => none
   | some ps =>
     let z := 1 / ps.foldl (· + ·) 0
     let e := am s.regs.size * m * m * z
-    let eStar? : Option Float := if e ≤ 5 * m then (estimateBias s.b e).map (e - ·) else some e
+    let eStar? : Option Float := if e ≤ 5 * m then (estimateBias cmpF s.b e).map (e - ·) else some e
     match eStar?, thresholds[s.b - thresholdOffset]? with
     | some eStar, some thr =>
       let v := s.regs.foldl (fun c r => if r == 0 then c + 1 else c) 0
       let h := if v ≠ 0 then m * (m / Float.ofNat v).log else eStar
       if h ≤ Float.ofNat thr then some h.toUInt64.toNat else some eStar.toUInt64.toNat
     | _, _ => none
+
+/-- `count()` -/
+def count (s : Hll.St) : Option Nat := countWith cmpF s
 
 /-- `relative_error()` -/
 def relativeError (s : Hll.St) : Float :=
